@@ -9,6 +9,7 @@ echo "== baseline tests (guard off)"
 (cd /repo && env -u HAIWAY_VERIF /venv/bin/python -m pytest -q -p no:cacheprovider tests 2>&1 | tail -1) | tee /dev/stderr | grep -q "65 passed" || fail=1
 echo "== seeded changes"
 for d in seeded/C*/; do
+  if grep -q '"obsolete"' "$d/meta.json"; then echo "$(basename "$d"): obsolete (skipped)"; continue; fi
   r=$(tools/try_seed.sh "$d" 2>&1 | tail -1)
   echo "$(basename "$d"): $r" | cut -c1-200
   case "$r" in *CAUGHT*) ;; *) fail=1;; esac
